@@ -1,0 +1,21 @@
+//go:build verif && unix
+
+package term
+
+import "time"
+
+// Exports for the verification harness (/verif). Only built with -tags verif.
+
+// VerifByteReader is the byte source readEvent consumes.
+type VerifByteReader interface {
+	ReadByteWithTimeout(timeout time.Duration) (byte, error)
+}
+
+// VerifReadEvent decodes one event from rd with the real decoder.
+func VerifReadEvent(rd VerifByteReader) (Event, error) { return readEvent(rd) }
+
+// VerifErrTimeout is the error a byte source returns when no byte arrived in time.
+var VerifErrTimeout = errTimeout
+
+// VerifKeySeqTimeout is the timeout used for bytes inside escape sequences.
+func VerifKeySeqTimeout() time.Duration { return keySeqTimeout }
